@@ -22,7 +22,7 @@ func c02Evil() []world.Answer {
 
 // c02Validate is the independent reference validator. login=true additionally requires the session's nonce.
 func c02Validate(w *world.World, token string, login bool, nonce string) string {
-	claims, err := world.VerifyIndependent(token, world.KeyEC, world.KeyRSA)
+	claims, err := world.VerifyIndependent(token, w.Keys...)
 	if err != nil {
 		return "signature: " + err.Error()
 	}
